@@ -202,6 +202,12 @@ class Env:
             if op != '=':
                 rhs = {'k': 'bin', 'op': op[:-1], 'l': self.subst(lhs), 'r': rhs}
             self._store(lhs, rhs)
+        elif e['ev'] == 'expr':
+            t = e.get('e')
+            # user-defined assignment operator: x = y (including move assignment from a temporary)
+            if isinstance(t, dict) and t.get('k') == 'call' and t.get('short') == 'operator=' and 'recv' in t \
+                    and len(t.get('args', [])) == 1:
+                self._store(strip_casts(t['recv']), self.subst(strip_casts(t['args'][0])))
         elif e['ev'] == 'incdec':
             lhs = e['lhs']
             rhs = {'k': 'bin', 'op': '+' if e['op'] == '++' else '-', 'l': self.subst(lhs), 'r': {'k': 'lit', 'v': 1}}
